@@ -1,4 +1,5 @@
 import FinProtoc.Visit
+import FinProtoc.Generated.Facts
 /-!
 # C12 — ill-formed DSL is rejected at the right line; well-formed DSL is accepted
 
@@ -93,5 +94,15 @@ example : (addPacketS { name := "A", root := false, fields := [], line := 7 }
 /-- the documented pad-character spelling `'\x00'` (as the lexer delivers it: backslash, x, 0, 0) is an allowed value.
 On the pinned tree it was not (the table held a raw NUL only): a genuine defect, repaired by a `fix:` commit. -/
 theorem padchar_nul_accepted : (optionValues "FixedStringPadChar").map (·.contains "'\\x00'") = some true := by decide
+
+/-! ## T1: the option table of the visitor model is the table of `model.go` as it stands now
+
+`Generated.optionsTable` is rewritten from `var options` of `/repo/internal/model/model.go` by `tools/facts` on every run of this
+check (constants evaluated by go/types), so these two closed facts are re-checked against what the code says now: an option added,
+removed or given another list of allowed values breaks the build of this module. -/
+
+theorem options_table_tied : ∀ kv ∈ Generated.optionsTable, optionValues kv.1 = some kv.2 := by decide
+
+theorem option_names_tied : Generated.optionsTable.map (·.1) = optionNames := by decide
 
 end FinProtoc.Props
